@@ -19,7 +19,7 @@ static const profile_t PROFILES[] = {
       0, 0, (1u << P_T) | (1u << P_RT) | (1u << P_DOT), (1u << T_T) | (1u << T_TX) | (1u << T_U) },
     { "C07", 2, G_CTX | G_REG | G_LIFE | G_REFS | G_ILLEGAL | G_CTXCALL | G_QUIT | G_ARM,  RL_BASE | R_EV,                     1, "", 1, 0, 1 | 4,
       (1u << A_DEREG) | (1u << A_CTXCALL), (1u << CB_START) | (1u << CB_STOP) | (1u << CB_EVT), 0, 0 },
-    { "C08", 2, G_LIFE | G_MSG | G_SUB | G_BCAST | G_PILL | G_QUIT | G_BATCH,               RL_BASE | R_PS | R_FIFO | R_PILL,   0, "01000100" "07000100" "07010100" "04000000", 1, 0, 1,
+    { "C08", 2, G_LIFE | G_MSG | G_SUB | G_PRIO | G_BCAST | G_PILL | G_QUIT | G_BATCH,               RL_BASE | R_PS | R_FIFO | R_PILL,   0, "01000100" "07000100" "07010100" "04000000", 1, 0, 1,
       0, 0, (1u << P_T) | (1u << P_MOD_STOPPED), (1u << T_T) },
     { "C15", 2, G_REG | G_LIFE | G_MSG | G_SUB | G_PILL | G_ARM | G_ILLEGAL | G_QUIT,       RL_BASE | R_PS | R_NM,              1, "01000100", 1, 0, 0x7f,
       (1u << A_CTXCALL) | (1u << A_PUB) | (1u << A_SUB) | (1u << A_TELL), 0xf, (1u << P_T), (1u << T_T) | (1u << T_MOD_STARTED) | (1u << T_CTX_TICK) },
@@ -59,7 +59,7 @@ static void world_reset(void) {
 static void free_hook(void *p) {
     for (int i = 0; i < nmsg; i++) if (MSG[i].used && MSG[i].autofree && MSG[i].payload == p) {
         if (MSG[i].freed++) vfail("PS.free", "PS.free|twice", "auto-free payload of message #%d released twice", i);
-        if (ON(R_FREE) && (MSG[i].owed > 0 || msg_busy[i] > 0))
+        if (ON(R_FREE) && (MSG[i].owed - MSG[i].may_vanish > 0 || msg_busy[i] > 0) && !(MSG[i].rc_neg && MSG[i].delivered == 0))
             vfail("PS.free", "PS.free|early", "auto-free payload of message #%d released while %d recipient(s) still have to receive it%s", i, MSG[i].owed, msg_busy[i] ? " / a handler is using it" : "");
         return;
     }
@@ -176,6 +176,13 @@ int main(int argc, char **argv) {
     for (int i = 0; i < NPROFILES; i++) if (!strcmp(PROFILES[i].prop, PROP)) { P = PROFILES[i]; found = 1; }
     if (!found) { fprintf(stderr, "unknown profile %s\n", PROP); return 2; }
     for (int i = 1; i < argc - 1; i++) { if (!strcmp(argv[i], "--nmods")) P.nmods = atoi(argv[i + 1]); if (!strcmp(argv[i], "--maxdev")) P.maxdev = atoi(argv[i + 1]); }
+    /* the prelude follows the number of modules: A and B (and C) are registered by it when it registers any */
+    static char prel[200];
+    if (P.prelude && strstr(P.prelude, "07010100")) {
+        const char *q = strstr(P.prelude, "07010100"); size_t off = q - P.prelude;
+        snprintf(prel, sizeof prel, "%.*s%s%s%s", (int)off, P.prelude, P.nmods >= 2 ? "07010100" : "", P.nmods >= 3 ? "07020100" : "", q + 8);
+        P.prelude = prel;
+    }
     RULES = P.rules | R_FD; adv_drains = (P.groups & G_BATCH) != 0;
     snprintf(cfg_str, sizeof cfg_str, "world prop=%s modules=%d maxdev=%d", P.prop, P.nmods, P.maxdev);
     model_reset();            /* computes the pattern/topic match table once, before any fork */
